@@ -20,6 +20,7 @@ ASSUMPTIONS = ["neighbourhood completeness of the grid is property C20", "virtua
 def declare(rep):
     rep.rule("C13.validated-return", "triangulate_surface returns a cell only after initialize_cell_properties(check=true) on that path", floor=1)
     rep.rule("C13.retry-bound", "the retry loop has a literal bound and its failure exit throws intialization_exception", floor=1)
+    rep.rule("C13.retry-catches", "the handlers of the retry loop of triangulate_surface catch every exception type an attempt can throw (may-throw summaries of the triangulation cone): a failure that escapes them aborts the initialisation on the first unlucky attempt, with the wrong exception type, instead of being retried", floor=1)
     rep.rule("C13.validation-steps", "initialize_cell_properties(true) passes through generate_edge_set, throws on !is_manifold(), and orients the normals", floor=3)
     rep.rule("C13.manifold-test", "cell::is_manifold returns false unless every edge has exactly two faces AND V - E + F == 2 over the live nodes, edges and faces (pinched vertices and multi-shell surfaces pass the edge test alone)", floor=2)
     rep.rule("C13.poisson-grid-size", "the grid in which accepted samples are looked up has a voxel size >= the minimum distance handed to poisson_disk_sampling: get_neighborhood only visits the 27 surrounding voxels", floor=2)
@@ -171,6 +172,21 @@ def validated_return(rep, prog):
         rep.violation("C13.retry-bound", prog, fn, loop, "retry loop is not a bounded retry that throws",
                       "the retry loop of triangulate_surface is not of the form for(i=0;i<N;++i){try{...;break;}catch{...} if(i==N-1) throw intialization_exception}: bound=%s, failure-throw=%s, counter modified in body=%s"
                       % (N, last_throw.get("thrown_t") if last_throw else None, counter_written))
+    # --- every failure of an attempt is retried -----------------------------------------------------
+    trys = [t for t in walk(loop.get("body") or {}) if t.get("k") == "CXXTryStmt"]
+    if trys:
+        X = e2.Exceptions(prog)
+        esc = X.escapes(fn, trys[0])
+        esc.pop("<rethrow>", None)
+        bad = {t_: site for t_, site in esc.items() if t_ != e2.ANY}
+        if bad:
+            for t_, site in sorted(bad.items()):
+                rep.violation("C13.retry-catches", prog, fn, trys[0], "%s is not retried" % t_,
+                              "an attempt of triangulate_surface can throw %s (%s), which none of the handlers of the retry loop (%s) catches: the exception leaves the loop on the first such attempt - no retry, and the caller does not get the initialisation exception the bounded retry promises" % (t_, site, ", ".join(h["type"] for h in trys[0].get("handlers", []))))
+        else:
+            rep.ok("C13.retry-catches", prog, fn, trys[0], "handlers (%s) catch every exception type an attempt may throw" % ", ".join(h["type"] for h in trys[0].get("handlers", [])))
+    else:
+        raise AnalysisBroken("triangulate_surface: no try statement in the retry loop")
     # --- must-pass-through ----------------------------------------------------------------------
     vunits = set()
     for n in walk(fn["body"], into_lambdas=False):
@@ -477,20 +493,41 @@ def poisson(rep, prog):
             if render(call_obj(src[0])) != render(call_obj(pl)):
                 why = "neighbourhood taken from %s but insertion into %s" % (render(call_obj(src[0])), render(call_obj(pl)))
                 continue
+            # inside one pass of the neighbour loop the flag must be cleared WHENEVER the distance test holds: the condition of
+            # the clearing branch is the test itself or a disjunction that contains it, and no other condition (an earlier
+            # `continue`, an enclosing if) exempts some neighbours from being tested
+            from ..model import expand
+            lv = loop["var"]["did"]
+
+            def is_dist(x):
+                x = strip(x)
+                while x.get("k") == "ParenExpr" and x.get("c"):
+                    x = strip(x["c"][0])
+                if x.get("k") == "BinaryOperator" and x.get("op") in ("<", "<="):
+                    lhs, rhs = strip(x["c"][0]), strip(x["c"][1])
+                    sq = [y for y in walk(lhs) if y.get("k") == "CXXMemberCallExpr" and y.get("callee") == "vec3::squared_norm"]
+                    refs = {y["ref"]["did"] for y in walk(lhs) if y.get("k") == "DeclRefExpr"}
+                    return bool(sq) and _is_lmin_squared(fn, rhs, lmin) and lv in refs
+                return False
+
+            def disjuncts(c):
+                c = strip(c)
+                while c.get("k") == "ParenExpr" and c.get("c"):
+                    c = strip(c["c"][0])
+                if c.get("k") == "BinaryOperator" and c.get("op") == "||":
+                    return disjuncts(c["c"][0]) + disjuncts(c["c"][1])
+                return [c]
+            dist_ok, extra = False, []
             for cond, pol in fi.guards(n, stop_at=loop):
-                if not pol:
-                    continue
-                for x in walk(cond):
-                    if x.get("k") == "BinaryOperator" and x.get("op") in ("<", "<="):
-                        lhs, rhs = strip(x["c"][0]), strip(x["c"][1])
-                        sq = [y for y in walk(lhs) if y.get("k") == "CXXMemberCallExpr" and y.get("callee") == "vec3::squared_norm"]
-                        if sq and _is_lmin_squared(fn, rhs, lmin):
-                            # the difference involves the loop element and the candidate
-                            lv = loop["var"]["did"]
-                            refs = {y["ref"]["did"] for y in walk(lhs) if y.get("k") == "DeclRefExpr"}
-                            ops = {y.get("op") for y in walk(cond) if y.get("k") == "BinaryOperator" and y.get("op") in ("&&", "||")}
-                            if lv in refs and ops <= {"||"}:
-                                good = True
+                ds = disjuncts(expand(fn, cond))
+                if pol and any(is_dist(d_) for d_ in ds):
+                    dist_ok = True
+                else:
+                    extra.append((cond, pol))
+            if dist_ok and not extra:
+                good = True
+            elif dist_ok and extra:
+                why = "the distance test is only applied to the neighbours for which %s'%s' holds" % ("" if extra[0][1] else "not ", short(extra[0][0], 60))
         if good and init_true:
             rep.ok("C13.poisson-min-distance", prog, fn, pl, "insertion guarded by '%s' (initialised true, cleared when |p - candidate|^2 < l_min*l_min for any point of the neighbourhood of the same grid)" % flag["name"])
         else:
@@ -549,6 +586,8 @@ def _predicate_guard(prog, fn, fi, pl, lmin):
 
 def _is_lmin_squared(fn, e, lmin_did):
     e = strip(e)
+    while e.get("k") == "ParenExpr" and e.get("c"):
+        e = strip(e["c"][0])
     if e.get("k") == "DeclRefExpr":
         for v in walk(fn["body"]):
             if v.get("k") == "Var" and v.get("did") == e["ref"]["did"] and isinstance(v.get("init"), dict) and v.get("t", "").startswith("const"):
@@ -556,6 +595,10 @@ def _is_lmin_squared(fn, e, lmin_did):
         return False
     if e.get("k") == "BinaryOperator" and e.get("op") == "*":
         a, b = strip(e["c"][0]), strip(e["c"][1])
+        while a.get("k") == "ParenExpr" and a.get("c"):
+            a = strip(a["c"][0])
+        while b.get("k") == "ParenExpr" and b.get("c"):
+            b = strip(b["c"][0])
         return all(x.get("k") == "DeclRefExpr" and x["ref"]["did"] == lmin_did for x in (a, b))
     return False
 
